@@ -65,6 +65,12 @@ type sym struct {
 	k types.BasicKind
 }
 
+// symLen is len(s)+delta for a symbolic string s (only usable as a slice bound of that string).
+type symLen struct {
+	s     *symStr
+	delta int
+}
+
 // For map, array, *array, slice, string or channel.
 type iter interface {
 	// next returns a Tuple (key, value, ok).
